@@ -278,11 +278,36 @@ class PathGen:
             return ["below2", first, ["tab", sel, tcases, ["v", rng.choice([False, 0, None, ""])]]]
         return [rng.choice(["below", "below", "below2"]), first, ["tab", "data", cases, dflt]]
 
+    def gen_lazy_has(self, chain):
+        """a has-comparison (with or without conversion functions) that an early candidate of a multi-valued nested
+        path already decides, with a logged user predicate inside that path: how far the nested search is driven shows
+        in the per-next() call log and nowhere else"""
+        rng = self.rng
+        first = rng.choice([["wc"], ["gwc"], ["gwc"], ["rec"], ["s", None, None, None]])
+        sel = rng.choice(["kind", "data", "depth"])
+        if sel == "kind":
+            cases = [[k, ["v", rng.choice([True, 1, "y", False])]] for k in rng.sample(["dict", "list", "str", "int", "float", "bool", "none"], rng.randint(0, 2))]
+        elif sel == "data":
+            cases = [[enc(rng.choice(SCALARS)), ["v", rng.choice([False, 0, True])]] for _ in range(rng.randint(0, 2))]
+        else:
+            cases = [[rng.randint(1, 4), ["v", rng.choice([False, True])]] for _ in range(rng.randint(0, 1))]
+        tab = ["tab", sel, cases, ["v", rng.choice([True, True, 1, "y"])]]
+        nested = [first, ["f", tab]]
+        if rng.random() < 0.25:
+            pre = self.gen_path(chain, maxlen=1, pdepth=self.max_pred_depth, minlen=1)
+            if not (pre and pre[-1][0] == "rec" and first[0] == "rec"):      # successive rec steps are a PathSyntaxError by design
+                nested = pre + nested
+        op, c = rng.choice([("ne", "zzz"), ("ne", "zzz"), ("ne", -77), ("eq", rng.choice(SCALARS)), ("ge", 0), ("lt", 5)])
+        fns = rng.choice([[], ["ident"], ["ident"], ["truth"], ["ident", "ident"], ["int"], ["boom_if_str"]])
+        return [rng.choice(["has", "has", "has", "not"]), ["c", nested, op, enc(c)], fns]
+
     def gen_pred(self, chain, pdepth, custom=False):
         rng = self.rng
         prof = self.pred_profile
         if prof == "below" and pdepth <= 1 and rng.random() < 0.7:
             return self.gen_below(chain)
+        if prof == "lazyhas" and pdepth <= 1 and rng.random() < 0.7:
+            return self.gen_lazy_has(chain)
         r = rng.random()
         if custom:
             r = r * 0.25
